@@ -348,5 +348,6 @@ func Run(t *tr.W, thorough bool) {
 		scenLiar(t, rng, "checkpoint", false)
 		scenLate(t, rng, true)
 		scenLate(t, rng, false)
+		runCurrent(t, rng)
 	}
 }
